@@ -144,7 +144,14 @@ def const_bound(fx, f, op, depth=0):
                 return const_bound(fx, f, rv[1], depth + 1)
             if rv[0] == "cast":
                 return const_bound(fx, f, rv[2], depth + 1)
+    if FIELD_UPPER_BOUND is not None and op[0] in ("c", "m") and op[1][1]:
+        # a field every construction of its struct bounds by `min(_, C)`: C stands in for the constant in
+        # upper-bound guards (guards_for records upper bounds only, so an upper bound of the bound is sound)
+        return FIELD_UPPER_BOUND(fx, f, op)
     return None
+
+
+FIELD_UPPER_BOUND = None   # optional provider, installed by a rule module for the duration of one rule
 
 
 def guards_for(fx, f):
